@@ -193,7 +193,7 @@ def check(ctx):
                             continue
                         q = qual_of(fn) if fn is not None else "<module>"
                         n_w += 1
-                        ctx.ob("R1", f"{m.rel}:{q}", f"`{short(n)}`: ${const_value(t.slice)} is written only by _change_working_directory, the resynchroniser _fix_cwd and the initial default_env", (m.rel, q) in PWD_WRITERS, key=f"{m.rel}:{q}|foreign-pwd-write", where=loc(n))
+                        ctx.ob("R1", f"{m.rel}:{q}", f"`{short(n)}`: ${const_value(t.slice)} is written only by _change_working_directory, the resynchroniser _fix_cwd and the initial default_env", (m.rel, q) in PWD_WRITERS or only_called_from(ctx.repo, m, q, {q_ for r_, q_ in PWD_WRITERS if r_ == m.rel}), key=f"{m.rel}:{q}|foreign-pwd-write", where=loc(n))
     if n_w < 4:
         raise AnalysisError(f"only {n_w} $PWD/$OLDPWD writes found")
     ds = ctx.repo.module(DS)
@@ -287,12 +287,13 @@ def check(ctx):
             # definition is taken with the guards under which it executes)
             func_names = {id(c.func) for c in ast.walk(fn) if isinstance(c, ast.Call)}
 
-            def cases_of(e_, depth=0):
-                """[(expr with locals substituted, extra facts)]"""
+            def cases_of(e_, depth=0, submap=None):
+                """[(expr with locals substituted, extra facts, substitution used)]"""
                 from ..engine import dtable as _dt
 
-                out = [(e_, [])]
-                if depth > 3:
+                submap = dict(submap or {})
+                out = [(e_, [], submap)]
+                if depth > 4:
                     return out
                 for x in ast.walk(e_):
                     if isinstance(x, ast.Name) and id(x) not in func_names and x.id != lst:
@@ -302,15 +303,17 @@ def check(ctx):
                             for d_ in ds_:
                                 dn = cfg.nodes_of(d_.stmt)
                                 f_ = facts_at(cfg, dn[0]) if dn else []
+                                sm = dict(submap)
+                                sm[x.id] = d_.value
                                 sub = _dt.subst(e_, {x.id: d_.value})
-                                for e2, f2 in cases_of(sub, depth + 1):
-                                    res.append((e2, f_ + f2))
+                                for e2, f2, sm2 in cases_of(sub, depth + 1, sm):
+                                    res.append((e2, f_ + f2, sm2))
                             return res
                 return out
 
             all_cases = cases_of(idx_expr)
             names = set()
-            for e2, _f in all_cases:
+            for e2, _f, _sm in all_cases:
                 for x in ast.walk(e2):
                     if isinstance(x, ast.Name) and x.id != lst and not (isinstance(parent(x), ast.Call) and parent(x).func is x) and x.id != "len":
                         names.add(x.id)
@@ -320,8 +323,24 @@ def check(ctx):
             var = next(iter(names))
             bad = None
             n_ok = 0
-            for case_expr, case_facts in all_cases:
-              fs = facts + case_facts
+            from ..engine import dtable as _dt2
+
+            def close(e_, sm):
+                """apply the case's definitions to a guard, to a fixpoint (guards mention the same locals)"""
+                for _ in range(5):
+                    e2_ = _dt2.subst(e_, sm)
+                    if unparse(e2_) == unparse(e_):
+                        break
+                    e_ = e2_
+                return e_
+
+            for case_expr, case_facts, case_sm in all_cases:
+              # aliases of the length (`depth = len(DIRSTACK)`) count as the length itself
+              for n_, ds_ in defs.items():
+                  if n_ not in case_sm and len(ds_) == 1 and ds_[0].kind == "assign" and unparse(ds_[0].value) == f"len({lst})":
+                      case_sm[n_] = ds_[0].value
+              case_expr = close(case_expr, case_sm)
+              fs = [(close(e, case_sm), pol) for e, pol in facts + case_facts]
               for L in _LENS:
                 for k in _NUMS:
                     env = {var: k, "__len__": L}
